@@ -185,3 +185,46 @@ reg("C14", harness="c14_flush", level="model_checking", deadline=(300, 1800), ex
     runs=[dict(flavour="sim", part="graphs"), dict(flavour="sim", part="positions"), dict(flavour="sim", part="stateless")],
     rule="state/transition as in C07; a flush point = SYNC/FULL call returning with avail_in==0 and avail_out>0; distinct_nontrivial = graphs, "
          "(input,level,cpu) position sweeps and (A,B) pairs completed.")
+
+
+reg("C10", harness="c10_bound", level="model_checking", deadline=(360, 1800), extra_src=["ref/ref_inflate.c"], engine="explore",
+    technique="bounded-exhaustive sweep of every avail_out value around and below the documented bound with guard pages + explicit-state exploration of all output-chunk sequences for termination + invalid-parameter enumeration",
+    level_text="(i) one-shot compression for all strings over {00,a,b} up to length 4 (6) and the SHAPES/BIG inputs x levels x wrappers x flush x 3 CPU "
+               "levels with EVERY avail_out from 0 to bound+16 (window around the bound for long inputs); the output buffer ends at an "
+               "inaccessible page; success must be a complete decodable stream within the bound, failure must be STATELESS_OVERFLOW and only "
+               "below the bound; counters must equal bytes moved. (ii) the state graph of isal_deflate with end_of_stream set under ALL "
+               "sequences of non-empty output chunk sizes: every path reaches ZSTATE_END, every call progresses. (iii) invalid level/flush/"
+               "level_buf combinations are refused with a documented code before any output.",
+    level_note="termination is decided for the listed inputs and chunk alphabet {1,2,7,8,9,15,16,17,rest}; trusted: ref/ref_inflate.c",
+    runs=[dict(flavour="sim", part="oneshot"), dict(flavour="sim", part="termination"), dict(flavour="sim", part="params")],
+    rule="case = (input, level, wrapper, flush, cpu, avail_out); state/transition as in C07 for the termination graphs; distinct_nontrivial = "
+         "distinct successful streams, graphs and parameter cases.")
+
+
+reg("C06", harness="c06_mutants", level="fault_enumeration", deadline=(360, 2400), extra_src=["ref/ref_inflate.c"],
+    technique="complete first-order mutation closure (every truncation, single-bit flip, byte substitution) of grammar-generated seeds + all byte strings up to length 2 (3) + injected grammar faults, x drivers x kernels, judged by the reference decoder's verdict on the mutated bytes",
+    level_text="For each seed stream (<=64 bytes, every block type / code shape, raw-gzip-zlib-NO_HDR_VER framing) the COMPLETE closure of truncations, "
+               "single-bit flips and byte substitutions {00,FF,+1} is decoded by the real inflate under one-shot (6 output capacities), streaming, "
+               "byte-at-a-time input, 1-byte output and (seeds/faults) every 2-split, kernels base/_01/_04; plus ALL byte strings of length <=2 "
+               "(thorough 3) in all 7 modes and ~40 single injected grammar/wrapper faults with their documented error class. Completion is "
+               "accepted only if the independent decoder finds the mutated bytes valid with equal output; guard pages catch any write beyond "
+               "avail_out; a driver horizon catches non-termination.",
+    level_note="second-order mutants and seeds beyond 64 bytes are not enumerated; trusted: ref/ref_inflate.c verdict/classification.",
+    runs=[dict(flavour="sim", part="faults"), dict(flavour="sim", part="short"), dict(flavour="sim", part="closure")],
+    rule="case = (candidate bytes, mode, driver, output capacity, kernel); a candidate is non-trivial iff the reference verdict differs from "
+         "VALID (truncated or invalid); distinct_nontrivial counts distinct such candidates (hash of bytes+mode).")
+
+
+reg("C11", harness="c11_checksum", level="fault_enumeration", deadline=(300, 2400), extra_src=["ref/ref_inflate.c"],
+    technique="complete single-bit/byte corruption and truncation closure at every offset (header, body, trailer) of wrapped seed streams x all drivers x kernels, judged by the independent decoder incl. its own CRC-32/Adler-32; producer trailers verified for every chunking",
+    level_text="Verifier: seeds in gzip / zlib / *_NO_HDR_VER framing (empty, stored, fixed, dynamic payloads; a payload whose CRC-32 contains a zero "
+               "byte; a gzip header with FEXTRA+FNAME+FCOMMENT+FHCRC) are closed under every truncation, every single-bit flip and {00,FF,+1} "
+               "substitutions at EVERY offset and decoded under one-shot (6 capacities), streaming, byte-at-a-time, 1-byte-output and every "
+               "2-split drivers on kernels base/_01/_04: success only if the reference accepts the mutated bytes with the same output, and "
+               "state.crc must equal the reference checksum. Producer: trailers of all levels x 4 wrapper modes x 5 chunkings x 4 CPU levels "
+               "are recomputed independently; thorough adds the 2^32+5-byte ISIZE wrap-around.",
+    level_note="multi-bit corruptions that preserve CRC-32/Adler-32 are outside first-order closure (checksums are not collision-free); trusted: "
+               "ref CRC-32/Adler-32 (bit-serial definition) and ref_inflate.",
+    runs=[dict(flavour="sim", part="verifier"), dict(flavour="sim", part="producer"), dict(flavour="sim", part="isize")],
+    rule="case = (mutated wrapped stream, driver, capacity, kernel) / (input, level, wrapper, chunking, cpu); a candidate is non-trivial iff the "
+         "reference verdict is not VALID; distinct_nontrivial counts those plus distinct produced streams.")
